@@ -50,6 +50,9 @@ type schedScenario struct {
 	// Judge (optional): an oracle of the scenario's own, applied to the observations of every execution - for what
 	// the comparison with the coarse-grained runs of the same code cannot see (a wrong answer every order produces)
 	Judge func(obs []string) (sig, what string)
+	// NoSerialOracle: the comparison with the coarse-grained runs is off for this scenario (an operation which looks
+	// twice is one step there, so "accepted, then rejected" within it would never be among the allowed vectors)
+	NoSerialOracle bool
 }
 
 // runConcurrent executes the scenario once with every op in its own thread.
@@ -245,6 +248,9 @@ func exploreShardProp(prop string, sc *schedScenario, class string, bound, maxEx
 	}
 	if judge == nil {
 		judge = sc.Judge
+	}
+	if sc.NoSerialOracle {
+		judgeSerial = false
 	}
 	tmp := fw.NewCheck(prop, "worker", "model_checking")
 	allowed, seqRuns, seqBroken := map[string]bool{}, 0, false
